@@ -647,3 +647,6 @@ def run(ctx, rep):
     rule_merge(ctx, rep, rid="R-C02-merge")
     from rules import c03_allwalks
     c03_allwalks.run(ctx, rep, rid="R-C02-allwalks")
+    # global tables are complete before a rule consults them
+    from rules.c06 import rule_pipeline
+    rule_pipeline(ctx, rep, rid="R-C02-pipeline")
